@@ -156,6 +156,17 @@ def build5(T, tree, pfx="L"):
             Mo, MR, _ = build5(T, mt, f"{pfx}m{i}")
             op, Rm = op @ Mo, ref_matmul(T, Rm, MR)
         return op @ A2, ref_matmul(T, Rm, R2), None
+    if k == "selfslice":
+        # a product of an operator with a slice / row or column selection of the SAME object (a view that keeps its operand in an attribute,
+        # like the transposing wrappers do, but is not a transpose): ["selfslice", side, sub, s0, s1]
+        _, side, sub, s0, s1 = tree
+        A, R, _ = build5(T, sub, pfx + "v")
+        i0, rows = slice_indices(s0, A.shape[0])
+        i1, cols = slice_indices(s1, A.shape[1])
+        S, RS = A[i0, i1], ref_index(T, R, rows, cols)
+        if side == "L":
+            return S @ A, ref_matmul(T, RS, R), None
+        return A @ S, ref_matmul(T, R, RS), None
     if k == "gram2":
         # A.H @ B with two *different* objects of the same shape (must not be reported PSD)
         A, RA, _ = build5(T, tree[1], pfx + "a")
@@ -220,6 +231,9 @@ def name5(t):
         return f"sandwich{t[1]}{t[2]}({name5(t[3])};" + ",".join(name5(x) for x in t[4:]) + ")"
     if k == "gram2":
         return f"A.H@B({name5(t[1])})"
+    if k == "selfslice":
+        from .common import _sln
+        return f"selfslice{t[1]}({name5(t[2])})[{_sln(t[3])},{_sln(t[4])}]"
     if k == "sliced":
         from .common import _sln
         return f"sl({name5(t[1])})[{_sln(t[2])},{_sln(t[3])}]"
@@ -269,10 +283,18 @@ def case_tree(T, tree):
     check_annotations(T, "op", A, R, cert)
     # declaring does not alter the operand and yields the same action
     before = set(A.annotations)
-    for ann in (cola.PSD, cola.SelfAdjoint, cola.Unitary, cola.Stiefel):
+    ANN = (cola.PSD, cola.SelfAdjoint, cola.Unitary, cola.Stiefel)
+    isa_before = {a.__name__: bool(A.isa(a)) for a in ANN}  # the operand has been queried before any declaration is made
+    for ann in ANN:
         B = ann(A)
         T.check(f"declare {ann.__name__}: operand annotations unchanged", set(A.annotations) == before)
         T.check(f"declare {ann.__name__}: new object with the annotation", B is not A and B.isa(ann))
+        T.check(f"declare {ann.__name__}: operand answers isa() as before (copy queried first)", {a.__name__: bool(A.isa(a)) for a in ANN} == isa_before,
+                f"before {isa_before}, after {({a.__name__: bool(A.isa(a)) for a in ANN})}")
+        B2 = ann(A)
+        A.isa(ann)  # the operand is queried first this time
+        T.check(f"declare {ann.__name__}: the copy reports the declaration (operand queried first)", bool(B2.isa(ann)))
+        T.check(f"declare {ann.__name__}: operand answers isa() as before (operand queried first)", {a.__name__: bool(A.isa(a)) for a in ANN} == isa_before)
     if R.shape[0] == R.shape[1] or True:
         B = cola.SelfAdjoint(A) if R.shape[0] == R.shape[1] else cola.Stiefel(A)
         T.eq("declare: same dense form", B.to_dense(), expected(T, R), dtype=False)
@@ -385,6 +407,18 @@ def cases(tier, seed):
              ["sliced", ["psd", 3, F8], ["i", [0, 1, 2]], ["i", [0, 2, 1]]], ["sliced", ["selfadj", 3, F8], ["i", [1]], ["i", [1, 2]]],
              ["sliced", ["psd", 3, C16], ["i", [0, 2]], ["i", [0, -1]]], ["sliced", ["psd", 3, F8], ["s", 0, 2, None], ["i", [0, 1]]],
              ["sliced", ["kron", ["rot", 0], ["rot", 0]], ["s", 0, 2, None], ["s", 0, 2, None]],
+             # off-diagonal blocks whose two slices coincide only after clipping against the wrong extent (negative start vs zero start; both
+             # starts beyond the block size) and blocks of annotated composites
+             ["sliced", ["psd", 3, F8], ["s", -2, None, None], ["s", None, 2, None]], ["sliced", ["selfadj", 3, C16], ["s", None, 2, None], ["s", -2, None, None]],
+             ["sliced", ["psd", 3, F8], ["s", -2, None, None], ["s", 0, 2, None]], ["sliced", ["psd", 3, F8], ["s", -2, None, None], ["s", -2, None, None]],
+             ["sliced", ["kron", P2, ["psd", 3, F8]], ["s", 2, 4, None], ["s", 4, 6, None]], ["sliced", ["kron", S2, ["selfadj", 2, F8]], ["s", 1, 2, None], ["s", 2, 3, None]],
+             ["sliced", ["blockdiag", [P2, S2], [1, 1]], ["s", -2, None, None], ["s", None, 2, None]],
+             # products of an operator with a slice / reordering of itself (views that are not transposes)
+             ["selfslice", "L", ["sum", ["dense", 2, 2, F8], ["dense", 2, 2, F8]], ["s", None, None, -1], ["s", None, None, None]],
+             ["selfslice", "L", ["dense", 3, 3, F8], ["i", [2, 0, 1]], ["s", None, None, None]],
+             ["selfslice", "R", ["sum", ["dense", 2, 2, C16], ["dense", 2, 2, C16]], ["s", None, None, None], ["i", [1, 0]]],
+             ["selfslice", "L", ["dense", 3, 2, F8], ["i", [0, 1]], ["s", None, None, None]] if False else ["selfslice", "L", ["dense", 2, 2, F8], ["i", [1, 1]], ["s", None, None, None]],
+             ["selfslice", "R", ["tridiag" if False else "dense", 2, 2, C16], ["s", None, None, None], ["s", None, None, -1]],
              ["T", P2c], ["H", P2c], ["T", S2c], ["T", ["psd-generic", 2, C16]], ["H", ["psd-generic", 2, C16]], ["transpose", G], ["adjoint", G],
              ["T", ["stiefel"]], ["H", ["stiefel"]], ["transpose", ["stiefel"]], ["adjoint", ["stiefel"]], ["T", ["rot", 0]], ["transpose", ["kron", ["rot", 0], ["rot", 1]]],
              ["transpose", ["sum", P2c, P2c]], ["adjoint", ["kron", P2c, P2c]],
